@@ -84,20 +84,21 @@ Section Proto.
 Variable ip6 : str -> option str.
 Variable handler : str -> hres.
 Variable has_mw has_upload : bool.
+Variable up_call_fails : option str.
 Variable peer_ip : str.
 Variable peer_fp : option str.
 
 Notation route := (route handler).
 Notation handle_gemini := (handle_gemini ip6 handler has_mw peer_ip peer_fp).
-Notation start_upload := (start_upload has_upload).
-Notation process_titan_upload := (process_titan_upload has_mw has_upload peer_ip peer_fp).
-Notation handle_titan_url := (handle_titan_url ip6 has_mw has_upload peer_ip peer_fp).
-Notation data_received := (data_received ip6 handler has_mw has_upload peer_ip peer_fp).
-Notation feed := (feed ip6 handler has_mw has_upload peer_ip peer_fp).
-Notation task_done := (task_done handler has_upload).
-Notation step := (step ip6 handler has_mw has_upload peer_ip peer_fp).
-Notation run := (run ip6 handler has_mw has_upload peer_ip peer_fp).
-Notation final := (final ip6 handler has_mw has_upload peer_ip peer_fp).
+Notation start_upload := (start_upload has_upload up_call_fails).
+Notation process_titan_upload := (process_titan_upload has_mw has_upload up_call_fails peer_ip peer_fp).
+Notation handle_titan_url := (handle_titan_url ip6 has_mw has_upload up_call_fails peer_ip peer_fp).
+Notation data_received := (data_received ip6 handler has_mw has_upload up_call_fails peer_ip peer_fp).
+Notation feed := (feed ip6 handler has_mw has_upload up_call_fails peer_ip peer_fp).
+Notation task_done := (task_done handler has_upload up_call_fails).
+Notation step := (step ip6 handler has_mw has_upload up_call_fails peer_ip peer_fp).
+Notation run := (run ip6 handler has_mw has_upload up_call_fails peer_ip peer_fp).
+Notation final := (final ip6 handler has_mw has_upload up_call_fails peer_ip peer_fp).
 Notation Inv := (Inv has_upload).
 
 Lemma Frame_route s line : Frame s (fst (route s line)).
@@ -118,7 +119,10 @@ Qed.
 Lemma Frame_start_upload s : Frame s (fst (start_upload s)).
 Proof.
   unfold ServerProto.start_upload. destruct (titan s); [|apply Frame_refl].
-  destruct has_upload; [|apply Frame_refl]. rewrite spawn_let. apply Frame_spawn.
+  destruct has_upload; [|apply Frame_refl]. destruct up_call_fails as [msg|].
+  - rewrite upload_failed_eq. pose proof (Frame_send s (err_resp 40 (lit "Upload error: " ++ msg))).
+    destruct (send_response s _); assumption.
+  - rewrite spawn_let. apply Frame_spawn.
 Qed.
 Lemma Frame_ptu s : Frame (set_await s false) (fst (process_titan_upload s)).
 Proof.
@@ -236,7 +240,7 @@ Proof.
         apply Fed_complete; [|assumption]. rewrite H1. cbn [line_rcvd set_content]. rewrite cancel_timer_eq. reflexivity.
       * constructor; cbn [fst line_rcvd await_titan set_buf buf titan]; [discriminate|].
         intros _ _. exists u, t. rewrite (request_line_line_ext _ d _ _ R). auto 10.
-    + rewrite (trailing_ignored_gen ip6 handler has_mw has_upload peer_ip peer_fp s d L A). apply Fed_complete; [reflexivity|exact A].
+    + rewrite (trailing_ignored_gen ip6 handler has_mw has_upload up_call_fails peer_ip peer_fp s d L A). apply Fed_complete; [reflexivity|exact A].
   - destruct (FA eq_refl) as [B RL]. pose proof (i_line _ _ I L) as A.
     destruct (request_line (D ++ d)) as [| | |u rest] eqn:R.
     + rewrite (dr_A_none s d L) by (rewrite B; exact R). constructor; cbn; [|discriminate].
@@ -264,7 +268,7 @@ Proof.
   induction sl as [|d r IH]; intros s D I F; cbn [ServerProto.feed concat].
   - rewrite app_nil_r. exact F.
   - pose proof (Fed_data_received s d D I F) as F1.
-    pose proof (Inv_data_received ip6 handler has_mw has_upload peer_ip peer_fp s d I) as I1.
+    pose proof (Inv_data_received ip6 handler has_mw has_upload up_call_fails peer_ip peer_fp s d I) as I1.
     destruct (data_received s d) as [s1 a1]. cbn [fst] in *.
     specialize (IH s1 (D ++ d) I1 F1). destruct (feed s1 r) as [s2 a2]. cbn [fst] in *.
     rewrite app_assoc. exact IH.
@@ -280,8 +284,8 @@ Proof.
     destruct (tr s && negb (closing s) && negb (sent s)); cbn [fst];
       (eapply (Fed_frame s); [constructor; reflexivity| | |exact F]); cbn; auto.
   - cbn [ServerProto.step]. eapply (Fed_frame s); [apply Frame_task_done| | |exact F].
-    + rewrite (e_tr _ _ _ (Eff_task_done handler has_upload s id o)). auto.
-    + apply (sent_mono _ _ _ (e_closes _ _ _ (Eff_task_done handler has_upload s id o))).
+    + rewrite (e_tr _ _ _ (Eff_task_done handler has_upload up_call_fails s id o)). auto.
+    + apply (sent_mono _ _ _ (e_closes _ _ _ (Eff_task_done handler has_upload up_call_fails s id o))).
   - cbn [ServerProto.step]. destruct (tr s); [|exact F]. cbn [fst].
     eapply (Fed_frame s); [| | |exact F].
     + constructor; cbn; rewrite cancel_timer_eq; reflexivity.
@@ -299,8 +303,8 @@ Proof.
   induction evs as [|e r IH]; intros s D I T L F; [cbn; rewrite app_nil_r; exact F|].
   assert (NL : e <> ELost) by (intro; subst; discriminate).
   assert (L' : has_lost r = false) by (destruct e; try congruence; exact L).
-  pose proof (Inv_step ip6 handler has_mw has_upload peer_ip peer_fp s e I) as I1.
-  pose proof (e_tr _ _ _ (Eff_step ip6 handler has_mw has_upload peer_ip peer_fp s e NL)) as T1.
+  pose proof (Inv_step ip6 handler has_mw has_upload up_call_fails peer_ip peer_fp s e I) as I1.
+  pose proof (e_tr _ _ _ (Eff_step ip6 handler has_mw has_upload up_call_fails peer_ip peer_fp s e NL)) as T1.
   rewrite final_cons. destruct e as [sl| | |]; try congruence.
   - cbn [stream]. rewrite app_assoc. apply IH; try assumption; [congruence|].
     apply Fed_step_read; assumption.
